@@ -330,6 +330,17 @@ def run(prog, chk):
                    'after the modifier `%s` the scan continues with the next modifier (the modifiers of a member may come in any order: '
                    '`override virtual` and `virtual override` denote the same member)' % nm.lower(), key='modifier-loop:' + nm)
 
+    # ---- forInit = variableDeclaration | expressionStatement : the for header parses its initialiser with exactly those two
+    if 'forInit' in rules and 'expressionStatement' in rules['forInit'] and 'variableDeclaration' in rules['forInit']:
+        pf = prog.fn('Parser::parseFor')
+        called = {SX.short(n['callee']) for n in SX.walk(pf.body, into_lambdas=False) if n['k'] == 'mcall' and n.get('callee', '').startswith('bloch::compiler::Parser::parse')}
+        want = {'parseVariableDeclaration', 'parseExpressionStatement'}
+        other = sorted(x for x in called if x in ('parseAssignment', 'parseStatement', 'parseAssignmentExpression'))
+        chk.ob('R14.4', pf, pf.ln, want <= called and not other,
+               'the for-loop initialiser is parsed as `variableDeclaration | expressionStatement` (calls %s; a plain `name = expr` parser rejects `for (a[0] = 1; …)`, `for (f(); …)`)' %
+               sorted(called & (want | set(other))), key='for-init-production')
+    else:
+        raise AnalysisBroken('grammar production forInit not found')
     # ---- R14.6 the declaration look-ahead classifies statement starts as the grammar does --------------------------------------
     chk.rule('R14.6', 'declaration look-ahead: `Type name` / `Type<…> name` / `Type[] name` are declarations, every expression-statement start is not (abstract evaluation over token patterns)')
     _typeahead_table(prog, chk)
